@@ -9,10 +9,13 @@ package props
 //     minIdMilli  minimum identity in thousandths passed to Optimise (as float64(milli)/1000)
 //     maxMemMB    memory cap handed to pals.New (0 = none); it only limits the word length Optimise
 //                 may choose (k=15 needs a 4 GB index)
-//     plants      ';' separated planted repeat pairs  aPos:aLen:bPos:bLen:comp  ("-" none):
+//     plants      ';' separated planted repeat pairs  aPos:aLen:bPos:bLen:comp[:class]  ("-" none):
 //                 copy A is target[aPos,aPos+aLen), copy B is query[bPos,bPos+bLen) in the
 //                 query's own coordinates, reverse-complemented when comp=1.  Only the driver
-//                 uses them (recall); the implementation never sees them.
+//                 uses them (recall); the implementation never sees them.  class 0 (default): the
+//                 calibrated class, recall always demanded; class 1: boundary class (length
+//                 minLen+1..minLen+12, a substitution 4..11 letters from an end), recall demanded by the
+//                 driver exactly when the pair contains an eps-match of the chosen filter parameters
 //     target, query  letters (acgt), query "-" for self comparison
 //
 // Observation
@@ -275,7 +278,7 @@ func c15MutateS(g *hx.Gen, s []byte, nsub int, widths []int, spacing int) []byte
 	return c
 }
 
-type c15Plant struct{ aPos, aLen, bPos, bLen, comp int }
+type c15Plant struct{ aPos, aLen, bPos, bLen, comp, cls int }
 
 // one workload
 func c15Workload(g *hx.Gen) string {
@@ -312,12 +315,52 @@ func c15Workload(g *hx.Gen) string {
 		if g.Chance(0.3) {
 			R = g.Range(lo, lo+60)
 		}
+		// boundary class: only a few letters longer than the minimum hit length, with a substitution so
+		// close to an end that the k-mers beyond it are lost and the filter trapezoid is lower than minLen
+		cls := 0
+		if g.Chance(0.3) {
+			cls = 1
+			R = minLen + g.Range(1, 12)
+		}
 		rep := g.Letters("acgt", R)
 		// copy B: exact, substitutions, or substitutions and small indels; identity comfortably above minId:
 		// at most a third of the allowed differences
 		allowed := int(float64(R) * (1 - float64(minIDm)/1000) / 3)
 		var cp []byte
-		switch g.Intn(3) {
+		kind := g.Intn(3)
+		if cls == 1 {
+			kind = 3
+		}
+		switch kind {
+		case 3:
+			cp = append([]byte{}, rep...)
+			subst := func(p int) {
+				for {
+					b := "acgt"[g.Intn(4)]
+					if b != cp[p] {
+						cp[p] = b
+						return
+					}
+				}
+			}
+			r := g.Range(4, 11)
+			if g.Chance(0.5) {
+				subst(r)
+			} else {
+				subst(R - 1 - r)
+			}
+			if allowed >= 2 && g.Chance(0.5) {
+				subst(g.Range(25, R-26))
+			}
+			if allowed >= 3 && g.Chance(0.25) {
+				// one single-letter indel in the middle (the pair then usually has no eps-match of full seed length)
+				p := g.Range(40, R-41)
+				if g.Chance(0.5) {
+					cp = append(cp[:p], cp[p+1:]...)
+				} else {
+					cp = append(cp[:p], append(g.Letters("acgt", 1), cp[p:]...)...)
+				}
+			}
 		case 0:
 			cp = append([]byte{}, rep...)
 		case 1:
@@ -378,7 +421,7 @@ func c15Workload(g *hx.Gen) string {
 			} else {
 				usedQ = append(usedQ, span{b, b + len(cp)})
 			}
-			plants = append(plants, c15Plant{a, len(rep), b, len(cp), comp})
+			plants = append(plants, c15Plant{a, len(rep), b, len(cp), comp, cls})
 			placed = true
 		}
 	}
@@ -430,6 +473,9 @@ func c15Workload(g *hx.Gen) string {
 		ss := make([]string, len(plants))
 		for i, p := range plants {
 			ss[i] = fmt.Sprintf("%d:%d:%d:%d:%d", p.aPos, p.aLen, p.bPos, p.bLen, p.comp)
+			if p.cls != 0 {
+				ss[i] += fmt.Sprintf(":%d", p.cls)
+			}
 		}
 		ps = strings.Join(ss, ";")
 	}
